@@ -576,7 +576,7 @@ class spawn(SpawnBase):
         self._log(s, 'send')
 
         b = self._encoder.encode(s, final=False)
-        return os.write(self.child_fd, b)
+        return self._write_all(self.child_fd, b)
 
     def sendline(self, s=''):
         '''Wraps send(), sending string ``s`` to child process, with
